@@ -344,7 +344,7 @@ def parse_vopts(src, cls, where):
 
 # ------------------------------------------------------------------------------------------------ writer
 IGNORED_WRITER_STMT = re.compile(
-    r"^(unsigned int i|int i = 0|i = 0|s_oss\.precision\(DBL_DIG [-+] \d\)|std::string indent0\(\"\"\)(, indent\d\(\"\"\))*|"
+    r"^(unsigned int i|int i = 0|i = 0|s_oss\.precision\(DBL_DIG \+ 2\)|std::string indent0\(\"\"\)(, indent\d\(\"\"\))*|"
     r"std::string indent1 = indent0|indent\d\.append\(Utilities::INDENT\)|return|"
     r"int n_user_local = \(n_out != NULL\) \? \*n_out : this->n_user|"
     r"std::map\s*<[^;]*>::const_iterator \w+( = (this->)?\w+\.begin\(\))?)$")
@@ -606,6 +606,9 @@ class Writer:
 
 def parse_writer(tab, cls, src, members, where):
     body, line = function_body(src, cls, "dump_raw", where)
+    if cls != "cxxSolutionIsotope" and "s_oss.precision(DBL_DIG + 2)" not in " ".join(body.split()):
+        fail(where, "dump_raw does not print doubles with 17 significant digits (precision(DBL_DIG + 2)): Sys.ValOk assumes the "
+                    "IEEE round trip of the text")
     w = Writer(tab, cls, members, where)
     w.walk(parse_block(body, where), [], [])
     if w.items:
@@ -1040,6 +1043,8 @@ def extract(repo=None):
     if not re.search(r'pad_right\(it->first, 29 - indent0\.size\(\)\) << it->second << "\\n"', flat) or \
             not re.search(r'pad_right\(it->first, it->first\.size\(\) \+ indent0\.size\(\)\) << " " << it->second << "\\n"', flat):
         fail("NameDouble.cxx", "dump_raw does not print `name value` lines")
+    if "s_oss.precision(DBL_DIG + 2)" not in flat:
+        fail("NameDouble.cxx", "dump_raw does not print doubles with 17 significant digits")
     body, _ = function_body(nd, "cxxNameDouble", "read_raw", "NameDouble.cxx read_raw")
     flat = " ".join(body.split())
     if "j = parser.copy_token(token, pos)" not in flat or "parser.get_iss() >> d" not in flat or "(*this)[token.c_str()] = d" not in flat:
